@@ -24,7 +24,7 @@ RULE = (
     "dimension 2-10, alpha over 1e-8..1e3 (plus a rank-deficient class: fewer structures than features with alpha=1e-300 for "
     "rank_diff), 1-4 components incl. width-1 blocks; argument forms: fresh lists | one list per side re-used for every call with its "
     "contents replaced / rescaled in place | 3-D blocks | 3-D blocks with the test structures a view of the training block; float64 or "
-    "integer-typed structures. non-trivial = several components or single-environment structures; "
+    "integer-typed structures; 1 in 8: the test set is made of the training environments (identical, or re-cut into as many / another number of structures). non-trivial = several components or single-environment structures; "
     "distinct by data hash."
 )
 ASSUMPTIONS = [
